@@ -21,3 +21,9 @@ func (t *Miner) VerifPackBlock(ctx xctx.XContext, height int64, now time.Time, c
 func (t *Miner) VerifTrySyncBlock(ctx xctx.XContext, target *lpb.InternalBlock) error {
 	return t.trySyncBlock(ctx, target)
 }
+
+// VerifTruncateForMiner exposes truncateForMiner (state walk to the consensus' truncate target, then ledger
+// truncation) to the verification harness.
+func (t *Miner) VerifTruncateForMiner(ctx xctx.XContext, target []byte) error {
+	return t.truncateForMiner(ctx, target)
+}
